@@ -28,6 +28,7 @@
 -/
 import Chrono.Proofs.SerdeL
 import Chrono.Proofs.SerdeStrL
+import Chrono.Proofs.SerdeLocalL
 import Chrono.Model.SerdeStr
 import Chrono.Extracted.SerdeLits
 import Chrono.Props.C19
@@ -1011,6 +1012,39 @@ theorem deserialize_str_never_panics (F : StrFormat) (e : F.E) (tzOff : NaiveDT 
     exact ⟨⟨_, rfl, fun _ h => by cases h⟩, ⟨_, rfl, fun _ h => by cases h⟩, ⟨_, rfl, fun _ h => by cases h⟩,
       ⟨_, rfl, fun _ h => by cases h⟩, ⟨_, rfl, fun _ h => by cases h⟩, ⟨_, rfl, fun _ h => by cases h⟩⟩
   | some s => exact visit_str_never_panics s tzOff htz
+
+/-- **`Deserialize for DateTime<Local>` with the REAL zone behind it** (audit 2, F32 repaired by
+770977e): `DateTimeStr.deserialize_local_zone zn` (Model/SerdeLocal.lean) takes the process zone as a
+zone VALUE and its answer as `Res` — `Local::offset_from_utc_datetime` with the `unwrap` modelled as a
+panic — instead of the total function `tzOff` above.  For EVERY zone the readers accept — TZif bytes
+(`parse`), or a `TZ` rule text (`from_tz_string`, zone built as `TimeZone::from_posix_tz` does) — and
+EVERY byte string: an error or a valid value carrying the offset the zone prescribes at its instant,
+never a panic.  The hypothesis `htz` of `visit_str_never_panics` is thereby discharged for zones that
+come from the readers (`Props.C16.accepted_offsets_representable`, `local_offset_total`).  Before the
+repair this was false: `TZ=XXX-24` was accepted and every input panicked
+(`Props.C16.local_panics_pinned_before_F32`). -/
+theorem deserialize_local_accepted_never_panics :
+    (∀ (bytes : List Nat) (zn : Tz.Zone), Tz.parse bytes = .ok zn → ∀ s : List Nat,
+      ∃ r, DateTimeStr.deserialize_local_zone zn s = .ok r ∧
+        ∀ z, r = .ok z → ZInv z ∧ TzL.local_offset_from_utc_datetime zn (instSecs z.utc) = .ok z.off)
+    ∧ (∀ (text : List Nat) (ext : Bool) (rule : Tz.Rule), Tz.from_tz_string text ext = .ok rule →
+      ∀ s : List Nat,
+      ∃ r, DateTimeStr.deserialize_local_zone (Chrono.Proofs.TzValid.zoneOfRule rule) s = .ok r ∧
+        ∀ z, r = .ok z → ZInv z ∧
+          TzL.local_offset_from_utc_datetime (Chrono.Proofs.TzValid.zoneOfRule rule) (instSecs z.utc) = .ok z.off) :=
+  ⟨fun bytes zn h s => Chrono.Proofs.SerdeLocal.local_zone_total zn
+      (Chrono.Proofs.TzLocal.parsed_instantSafe bytes zn h) (Chrono.Proofs.TzLocal.parsed_within bytes zn h) s,
+   fun text ext rule h s => Chrono.Proofs.SerdeLocal.local_zone_total _
+      (Chrono.Proofs.TzLocal.zoneOfRule_instantSafe rule)
+      (fun t ht => Chrono.Proofs.TzLocal.rule_within text ext rule h t
+        (Chrono.Proofs.TzLocal.zoneOfRule_types rule t ht)) s⟩
+
+/-- non-vacuity: the zone of `TZ=XXX-23:59:59` (the largest offset there is) is accepted, so the theorem
+applies to it; `TZ=XXX-24` is refused by the reader (and `Local` falls back, property C18) -/
+example : Tz.from_tz_string (Chrono.Proofs.Tz.asc "XXX-23:59:59") false
+      = .ok (.fixed ⟨86399, false, some (Chrono.Proofs.Tz.asc "XXX")⟩)
+    ∧ Tz.from_tz_string (Chrono.Proofs.Tz.asc "XXX-24") false = .err := by
+  refine ⟨by decide +kernel, by decide +kernel⟩
 
 /-- non-vacuity: the hypotheses are met by a non-UTF-8 byte string and a local zone at +05:30 (the parsers
 are defined by well-founded recursion, so concrete readings are compared with the crate, ops `sd.*.de`, not
